@@ -137,9 +137,15 @@ struct AcceptedCB : public Server::Client::ICallback
 };
 struct ListenCB : public Server::Listener::ICallback
 {
-  AcceptedCB client; unsigned accepted; bool refuse;
-  ListenCB() : accepted(0), refuse(false) {}
-  virtual Server::Client::ICallback* onAccepted(Server::Client& c, uint32 ip, uint16 port) { ++accepted; if(refuse) return 0; client.self = &c; return &client; }
+  AcceptedCB client; unsigned accepted; bool refuse; bool removeSelf; Server::Listener* self; bool removed;
+  ListenCB() : accepted(0), refuse(false), removeSelf(false), self(0), removed(false) {}
+  virtual Server::Client::ICallback* onAccepted(Server::Client& c, uint32 ip, uint16 port)
+  {
+    vf_assert(!removed, "a removed listener never receives another callback");
+    ++accepted;
+    if(removeSelf) { removed = true; g_p->remove(*(Server::Private::ListenerImpl*)self); }     // stop listening from inside the callback
+    if(refuse) return 0; client.self = &c; return &client;
+  }
 };
 struct EstCB : public Server::Establisher::ICallback
 {
@@ -153,15 +159,15 @@ extern "C" int accept_connect()
   {
     Server::Private p; g_p = &p;
     ListenCB lcb; EstCB ecb;
-    lcb.refuse = vf_pick(2);
+    lcb.refuse = vf_pick(2); lcb.removeSelf = vf_pick(2);
     Server::Listener* l = p.listen(Socket::loopbackAddress, 7000, lcb);
-    vf_assert(l != 0, "listen");
+    vf_assert(l != 0, "listen"); lcb.self = l;
     Server::Establisher* e = p.connect(Socket::loopbackAddress, 7001, ecb);
     vf_assert(e != 0, "connect");
     int lfd = (int)((Server::Private::ListenerImpl*)l)->getFileDescriptor();
     int efd = (int)((Server::Private::EstablisherImpl*)e)->getFileDescriptor();
     unsigned what = vf_pick(4);
-    if(what & 1) vf_net_pending_accept(lfd);         // a connection waits on the listening socket
+    if(what & 1) { vf_net_pending_accept(lfd); if(lcb.removeSelf) vf_net_pending_accept(lfd); }   // one (or two) connections wait on the listening socket
     if(what & 2) vf_net_writable(efd);               // the non-blocking connect has completed
     for(unsigned round = 0; round < 3; ++round) { p.interrupt(); p.run(); }
     vf_assert(lcb.accepted == ((what & 1) ? 1u : 0u), "an acceptable listener is dispatched exactly once per pending connection, an idle one never");
@@ -176,6 +182,17 @@ extern "C" int accept_connect()
       vf_assert(lcb.client.reads == 1 && lcb.client.writes == 0, "a readable client registered for reading gets exactly a read event");
     }
     if((what & 1) && lcb.refuse) vf_assert(p._clients.size() == ((what & 2) && ecb.connected ? 1u : 0u), "a refused connection leaves no client behind");
+    if(lcb.removed) vf_assert(p._listeners.size() == 0, "the removed listener is gone");
+    // clear(): everything is dropped, the loop still works afterwards (default timer restored, interrupt consumed)
+    if(vf_pick(2))
+    {
+      p.clear();
+      vf_assert(p._clients.size() == 0 && p._listeners.size() == 0 && p._establishers.size() == 0 && p._timers.size() == 0, "clear() drops every registration");
+      vf_assert(p._queuedTimers.size() == 1, "clear() keeps exactly the default timeout entry");
+      unsigned acc = lcb.accepted;
+      p.interrupt(); p.run();
+      vf_assert(lcb.accepted == acc, "nothing is dispatched after clear()");
+    }
   }
   vf_reach("end");
   return 0;
